@@ -154,6 +154,38 @@ impl Ctx {
     }
 }
 
+fn is_long(v: &Val) -> bool {
+    match v {
+        Val::Long { len, .. } => *len > 900,
+        Val::Text(s) => s.len() > 900,
+        Val::Blob(b) => b.len() > 900,
+        _ => false,
+    }
+}
+
+/// Does the statement write a TOAST-sized value?
+fn op_has_long(op: &Op) -> bool {
+    match op {
+        Op::Insert { rows, .. } | Op::Bulk { rows, .. } => rows.iter().any(|r| r.iter().any(is_long)),
+        Op::Update { sets, .. } => sets.iter().any(|(_, e)| matches!(e, SetExpr::Const(v) if is_long(v))),
+        _ => false,
+    }
+}
+
+/// Does the statement's predicate mention a column that currently holds a TOAST-sized value?
+fn pred_on_toast_col(op: &Op, t: Option<&MTable>) -> bool {
+    let (p, t) = match (op, t) {
+        (Op::Update { pred, .. }, Some(t)) | (Op::Delete { pred, .. }, Some(t)) | (Op::Select { pred, .. }, Some(t)) => (pred, t),
+        _ => return false,
+    };
+    let mut cs = vec![];
+    p.columns(&mut cs);
+    cs.iter().any(|c| match t.def.col_index(c) {
+        Some(i) => t.rows.iter().any(|r| is_long(&r[i])),
+        None => false,
+    })
+}
+
 fn stmt_shape(op: &Op, pred: &Prediction) -> String {
     match op {
         Op::Insert { rows, .. } => {
@@ -176,21 +208,77 @@ fn stmt_shape(op: &Op, pred: &Prediction) -> String {
     }
 }
 
-/// Compare a successful engine result with the model's; returns a description of the mismatch.
-fn compare_ok(exp: &Res, act: &ARes) -> Option<String> {
+fn is_toast_pointer(v: &Val) -> bool {
+    match v {
+        Val::Blob(b) => b.len() == 17,
+        Val::Text(s) => s.starts_with("?ToastPointer"),
+        _ => false,
+    }
+}
+
+/// Classify how two RETURNING bags differ.
+fn returning_diff_kind(expected: &[Row], observed: &[Row]) -> &'static str {
+    let (m, x) = bag_diff(expected, observed);
+    if m.len() != x.len() {
+        return "returning-rows";
+    }
+    let mut bool_as_int = true;
+    let mut toast_ptr = true;
+    for e in &m {
+        let mut b_ok = false;
+        let mut t_ok = false;
+        for o in &x {
+            if o.len() != e.len() {
+                continue;
+            }
+            let mut only_bool = true;
+            let mut only_toast = true;
+            for (a, b) in e.iter().zip(o.iter()) {
+                if a == b {
+                    continue;
+                }
+                let bool_int = matches!((a, b), (Val::Bool(t), Val::Int(i)) if (*t as i64) == *i);
+                let toast = matches!(a, Val::Text(s) if s.len() > 900) && is_toast_pointer(b)
+                    || matches!(a, Val::Blob(s) if s.len() > 900) && is_toast_pointer(b);
+                if !bool_int {
+                    only_bool = false;
+                }
+                if !toast {
+                    only_toast = false;
+                }
+            }
+            b_ok |= only_bool;
+            t_ok |= only_toast;
+        }
+        bool_as_int &= b_ok;
+        toast_ptr &= t_ok;
+    }
+    if bool_as_int {
+        "returning-bool-as-int"
+    } else if toast_ptr {
+        "returning-toast-pointer"
+    } else {
+        "returning-rows"
+    }
+}
+
+/// Compare a successful engine result with the model's; returns (kind, description) of the mismatch.
+fn compare_ok(exp: &Res, act: &ARes) -> Option<(&'static str, String)> {
     match (exp, act) {
         (Res::Unit, _) => None,
         (Res::Affected { n, returning }, ARes::Affected { n: an, returning: ar }) => {
             if n != an {
-                return Some(format!("affected rows: expected {}, got {}", n, an));
+                return Some(("affected-count", format!("affected rows: expected {}, got {}", n, an)));
             }
             if let Some(er) = returning {
                 match ar {
-                    None => return Some("RETURNING rows missing".into()),
+                    None => return Some(("returning-missing", "RETURNING rows missing".into())),
                     Some(ar) => {
                         if !bags_equal(er, ar) {
                             let (m, x) = bag_diff(er, ar);
-                            return Some(format!("RETURNING: missing {} unexpected {}", fmt_bag(&m), fmt_bag(&x)));
+                            let ern: Vec<Row> = er.iter().map(norm_row).collect();
+                            let arn: Vec<Row> = ar.iter().map(norm_row).collect();
+                            return Some((returning_diff_kind(&ern, &arn), format!("RETURNING: missing {} unexpected {}", fmt_bag(&m), fmt_bag(&x))));
                         }
                     }
                 }
@@ -200,7 +288,7 @@ fn compare_ok(exp: &Res, act: &ARes) -> Option<String> {
         (Res::Rows(er), ARes::Rows { rows, .. }) => {
             if !bags_equal(er, rows) {
                 let (m, x) = bag_diff(er, rows);
-                Some(format!("rows: missing {} unexpected {}", fmt_bag(&m), fmt_bag(&x)))
+                Some(("rows", format!("rows: missing {} unexpected {}", fmt_bag(&m), fmt_bag(&x))))
             } else {
                 None
             }
@@ -209,10 +297,10 @@ fn compare_ok(exp: &Res, act: &ARes) -> Option<String> {
             if rows.len() == 1 && rows[0].len() == 1 && rows[0][0] == Val::Int(*n) {
                 None
             } else {
-                Some(format!("COUNT(*): expected {}, got {}", n, fmt_bag(rows)))
+                Some(("count", format!("COUNT(*): expected {}, got {}", n, fmt_bag(rows))))
             }
         }
-        (e, a) => Some(format!("result shape: expected {:?}, got {:?}", e, a)),
+        (e, a) => Some(("shape", format!("result shape: expected {:?}, got {:?}", e, a))),
     }
 }
 
@@ -583,6 +671,8 @@ pub fn run_history(ctx: &mut Ctx, src: &mut Source, seed: u64) -> Option<History
             ("in_txn", in_txn_before.to_string()),
             ("features", feat.clone()),
             ("shape", stmt_shape(op, &pred)),
+            ("long_value", op_has_long(op).to_string()),
+            ("pred_on_toast_col", pred_on_toast_col(op, tname.as_ref().and_then(|t| view_before.tables.get(t))).to_string()),
         ];
         let desc = format!("step {} [s{}] {}", step_idx, s, op.short());
 
@@ -600,6 +690,8 @@ pub fn run_history(ctx: &mut Ctx, src: &mut Source, seed: u64) -> Option<History
         // ---- outcome vs model
         let mut effect_applied = false;
         let mut diverged = false;
+        let mut returning_only = false;
+        let _ = &returning_only;
         let mut new_view = pred.new_view.clone();
         match (&pred.expected, &actual) {
             (Ok(exp), Actual::Ok(act)) => {
@@ -623,7 +715,7 @@ pub fn run_history(ctx: &mut Ctx, src: &mut Source, seed: u64) -> Option<History
                     _ => exp.clone(),
                 };
                 if !diverged {
-                    if let Some(m) = compare_ok(&exp2, act) {
+                    if let Some((mkind, m)) = compare_ok(&exp2, act) {
                         let is_read = matches!(op, Op::Select { .. } | Op::Count(_));
                         if is_read {
                             // is the table content right? then the filtered read is wrong
@@ -658,8 +750,15 @@ pub fn run_history(ctx: &mut Ctx, src: &mut Source, seed: u64) -> Option<History
                             }
                         } else {
                             let prop = prop_for_step(op);
-                            ctx.violate(prop, "wrong-result", &sig_base, format!("{}: {}", desc, m), None);
-                            diverged = true;
+                            let mut sig = sig_base.clone();
+                            sig.push(("what", mkind.to_string()));
+                            ctx.violate(prop, "wrong-result", &sig, format!("{}: {}", desc, m), None);
+                            // a RETURNING-only discrepancy does not mean the states diverged
+                            if !mkind.starts_with("returning-") {
+                                diverged = true;
+                            } else {
+                                returning_only = true;
+                            }
                         }
                     }
                 }
@@ -892,7 +991,7 @@ pub fn sample_of(ctx: &Ctx, records: &[StepRecord]) -> Value {
         .take(60)
         .map(|r| format!("[s{}] {} -> {}", r.step.s, r.step.op.short(), {
             let b = r.actual.brief();
-            if b.len() > 160 { format!("{}…", &b[..160]) } else { b }
+            if b.len() > 160 { format!("{}…", trunc(&b, 160)) } else { b }
         }))
         .collect();
     json!({
